@@ -228,6 +228,9 @@ def isubst(t, venv, lenv, F):
             r = iadd(r, imulc(isize(w, lsub(a[1], lenv)), k))
         elif a[0] == "ivar" and lenv and a[1] in lenv.get("__ivars__", {}):
             r = iadd(r, imulc(lenv["__ivars__"][a[1]], k))
+        elif a[0] == "ifn":
+            args = tuple(isubst(x, venv, lenv, F) if (isinstance(x, tuple) and x and x[0] == "int") else (lsub(x, lenv) if isinstance(x, Lin) else x) for x in a[2])
+            r = iadd(r, ("int", w, 0, ((("ifn", a[1], args), k % (1 << w)),)))
         else:
             r = iadd(r, ("int", w, 0, ((a, k % (1 << w)),)))
     return r
@@ -593,6 +596,12 @@ def isyms(t):
             s |= bsyms(a[2])
         elif a[0] == "sz":
             s |= a[1].symbols()
+        elif a[0] == "ifn":
+            for x in a[2]:
+                if isinstance(x, Lin):
+                    s |= x.symbols()
+                elif isinstance(x, tuple) and x and x[0] == "int":
+                    s |= isyms(x)
     return s
 
 
@@ -662,7 +671,16 @@ def ivars(t):
             s.add(a[1])
         elif a[0] == "iunk":
             s.add("?" + a[1])
+        elif a[0] == "ifn":
+            for x in a[2]:
+                if isinstance(x, tuple) and x and x[0] == "int":
+                    s |= ivars(x)
     return s
+
+
+def ifn(w, name, *args):
+    """uninterpreted integer function (truncating casts, shifts, bit operations ...)."""
+    return ("int", w, 0, ((("ifn", name, tuple(args)), 1),))
 
 
 def bnorm(b, F):
@@ -1098,6 +1116,8 @@ def ishow(t):
             s = "from_%s(%s)" % (a[1], bshow(a[2]))
         elif a[0] == "sz":
             s = "(%r)" % (a[1],)
+        elif a[0] == "ifn":
+            s = "%s(%s)" % (a[1], ", ".join(ishow(x) if (isinstance(x, tuple) and x and x[0] == "int") else repr(x) for x in a[2]))
         else:
             s = "?%s" % (a[1],)
         if k == 1:
